@@ -18,8 +18,8 @@ ID = "C18"
 CASES = {"quick": 3000, "thorough": 40000}
 FLOOR = {"quick": 2700, "thorough": 36000}
 FLOOR_COUNTERS = {
-    "quick": {"competitors_tried": 25000, "planted_maps": 500, "padded_fits": 1200, "projector_fits": 1200},
-    "thorough": {"competitors_tried": 350000, "planted_maps": 7000, "padded_fits": 16000, "projector_fits": 16000},
+    "quick": {"reused_linear_estimator_objects": 250, "competitors_tried": 25000, "planted_maps": 500, "padded_fits": 1200, "projector_fits": 1200},
+    "thorough": {"reused_linear_estimator_objects": 3500, "competitors_tried": 350000, "planted_maps": 7000, "padded_fits": 16000, "projector_fits": 16000},
 }
 RULE = (
     "case = X (n 6-40, f 1-8), y (p 1-8; noisy linear, pure noise, or planted y = X A with A a (partial) isometry), mode "
@@ -87,7 +87,13 @@ def run(case, j):
     proj = case["projector"]
     j.tag("projector" if proj else "padded", f"f{'<' if f < p else ('=' if f == p else '>')}p", f"y:{case['kind']}", f"estimator:{case['est']}")
     rng = np.random.default_rng(case["cseed"])
-    est = OrthogonalRegression(use_orthogonal_projector=proj, linear_estimator=_linear(case["est"]) if proj else None)
+    lin = _linear(case["est"]) if proj else None
+    if lin is not None and case["cseed"] % 2:
+        # the same estimator object has been used before, on other data of the same shape
+        decoy = OrthogonalRegression(use_orthogonal_projector=True, linear_estimator=lin)
+        decoy.fit(rng.normal(size=X.shape), rng.normal(size=y.shape))
+        j.note("reused_linear_estimator_objects")
+    est = OrthogonalRegression(use_orthogonal_projector=proj, linear_estimator=lin)
     j.lib("fit", est.fit, X, y)
     Om = np.asarray(est.coef_).T  # predict(x) = x_(padded) @ Om
     ny = max(float(np.linalg.norm(y)), 1e-300)
